@@ -12,7 +12,8 @@ RULE = ("values of address/contract (tz1-tz4, KT1, sr1, txr1 over 20-byte hashes
         "(64/96 bytes under each applicable prefix), chain_id; alone and nested in pair/option/list. Oracle: optimized "
         "bytes == reference layout (tag, padding, lengths 21/22+/33/34/49/64/96/4); reading the optimized form back at "
         "the same type gives the same value (compared in bytes space); forge/unforge helper pairs are inverse; "
-        "blind_unpack never returns an address/key of another kind. Non-trivial: hash first byte <= 3 or last byte 0, "
+        "blind_unpack never returns an address/key of another kind and gives chain ids and signatures back as such (including "
+        "those whose bytes are also well-formed packed data). Non-trivial: hash first byte <= 3 or last byte 0, "
         "or an entrypoint is present, or the kind is not tz1. Distinct = distinct (type, value).")
 
 DOMAIN = ["address", "key_hash", "key", "signature", "chain_id"]
@@ -90,6 +91,15 @@ def _helpers(t, v, readable, case):
                 raise Violation("unforge_public_key(forge_public_key(%s)) = %s" % (s, got), case, "helper:key")
             data = v
         else:
+            # chain ids (4 bytes) and signatures (64 / 96 bytes): the untyped reader must give the value back as well, whatever
+            # the bytes look like (e.g. a chain id 05 00 87 01 is also well-formed packed data)
+            try:
+                guess = blind_unpack(v)
+            except Exception as e:
+                raise Violation("blind_unpack raised %r on %s" % (e, v.hex()), case, "blind-raise")
+            dec = rc.tz_decode(guess) if isinstance(guess, str) else None
+            if dec is None or dec[1] != v:
+                raise Violation("blind_unpack(%s) = %r, the bytes are the %s %s" % (v.hex(), guess, p, s), case, "blind-other-value:" + p)
             return
     except Violation:
         raise
@@ -165,6 +175,14 @@ def cases(draw):
         val = draw(gt.addresses(kinds=(2,)))
     else:
         val = draw(gt.values(t))
+    if leaf == "chain_id" and draw(st.integers(0, 2)) == 0:  # chain ids that are also well-formed packed data (05 + int)
+        n = draw(st.integers(64, 8191))
+        val = b"\x05\x00" + bytes([0x80 | (n & 0x3f), n >> 6])
+    if leaf == "signature" and draw(st.integers(0, 3)) == 0:  # signatures that are also well-formed packed bytes / strings
+        ln = draw(st.sampled_from([64, 96]))
+        tag = draw(st.sampled_from([b"\x0a", b"\x01"]))
+        body = draw(st.binary(min_size=ln - 6, max_size=ln - 6)) if tag == b"\x0a" else bytes(draw(st.lists(st.integers(32, 126), min_size=ln - 6, max_size=ln - 6)))
+        val = b"\x05" + tag + (ln - 6).to_bytes(4, "big") + body
     case = {}
     if leaf == "signature" and shape == "bare":
         if len(val) == 64:
